@@ -126,6 +126,7 @@ def replay(ctx, cases, label):
     ctx.cov.setdefault("nextseq_calls_replayed", 0)
     ctx.cov.setdefault("fetches_served", 0)
     ctx.cov["schedules_replayed"] += summ["cases"]
+    ctx.cov["traces_validated_against_impl"] += summ["cases"]  # TLC behaviours replayed on the real allocators, every result compared
     ctx.cov["nextseq_calls_replayed"] += summ["calls"]
     ctx.cov["fetches_served"] += summ["fetches"]
     K.drift_note(ctx, summ, label)
